@@ -317,8 +317,10 @@ def op_lower_fault(op: dict, log: EventLog, viol: list, stats: Counter) -> None:
 
 
 def op_catalogue(op: dict, log: EventLog, viol: list, stats: Counter) -> None:
-    """Named unsupported construct: to_onnx must raise."""
-    from sim import programs
+    """Named unsupported / delicate construct: loud or correct.  to_onnx must
+    raise, or the returned model must agree with eager JAX on every listed
+    input set (all branch choices / trip counts)."""
+    from sim import oracle, programs
     from sim.runtime import to_onnx_program
 
     pid = op["pid"]
@@ -329,14 +331,39 @@ def op_catalogue(op: dict, log: EventLog, viol: list, stats: Counter) -> None:
         stats["skipped_no_control"] += 1
         return
     raised = None
+    model = None
     try:
-        to_onnx_program(prog)
+        model = to_onnx_program(prog)
     except BaseException as ex:  # noqa: BLE001
         raised = ex
     stats["catalogue_entries"] += 1
-    if raised is None:
-        viol.append({"sig": f"C16|catalogue_silent|pid={pid}", "cls": "catalogue_silent", "detail": f"unsupported construct {pid} exported silently", "replay_ops": [op]})
-    log.add(op="catalogue", pid=pid, raised=type(raised).__name__ if raised else None)
+    verdict = None
+    if raised is not None:
+        stats["catalogue_loud"] += 1
+    else:
+        stats["catalogue_exported"] += 1
+        for xs in prog.meta.get("input_sets", [prog.make_inputs(0)]):
+            try:
+                jx = oracle.jax_run(prog.fn, xs, None, prog.x64)
+            except Exception:
+                continue
+            try:
+                got = oracle.ort_run(model, xs)
+                ok, msg = oracle.compare(jx, got, rtol=prog.rtol, atol=prog.atol)
+            except Exception as e:
+                ok, msg = False, f"ort:{type(e).__name__}: {str(e)[:160]}"
+            verdict = ok
+            if not ok:
+                viol.append({"sig": f"C16|catalogue_silently_wrong|pid={pid}", "cls": "catalogue_silently_wrong", "detail": f"construct {pid} exported without error but the model disagrees with JAX on {[np_shape(x) for x in xs]}: {msg}", "replay_ops": [op]})
+                break
+    log.add(op="catalogue", pid=pid, raised=type(raised).__name__ if raised else None, correct=verdict)
+
+
+def np_shape(x: Any) -> Any:
+    import numpy as np
+
+    a = np.asarray(x)
+    return a.tolist() if a.ndim == 0 else list(a.shape)
 
 
 def expand_enum(op: dict) -> list[dict]:
@@ -530,6 +557,8 @@ def main(tier: str) -> int:
                 "aborted_models_numeric": stats.get("aborted_models_numeric", 0),
                 "lower_fault_in_nested_body": stats.get("lower_fault_in_nested_body", 0),
                 "catalogue_entries": stats.get("catalogue_entries", 0),
+                "catalogue_loud": stats.get("catalogue_loud", 0),
+                "catalogue_exported_and_checked_correct": stats.get("catalogue_exported", 0),
                 "controls_invalid_no_validity_verdict": stats.get("controls_invalid", 0),
                 "controls_without_numeric_verdict": stats.get("controls_without_numeric_verdict", 0),
             },
